@@ -149,7 +149,8 @@ def run(cr: CheckRun) -> None:
     vlib.setup_repo_imports()
     vlib.build_vh()
     quick = cr.tier == "quick"
-    for ph in ("end", "start"):
+    # both delivery phases, without and with acknowledge-at-return (Python / Rust reading of who clears ISR)
+    for ph in ("end", "start", "ack_end", "ack_start"):
         cfg = f"MCInterrupts_{ph}.cfg" if quick else f"MCInterrupts_{ph}_t.cfg"
         res = run_tlc(SD, "MCInterrupts", cfg, workers=vlib.NCPU, extra=["-coverage", "1"], tag="C12-" + cfg, timeout=3400, heap="12g")
         if res.invariant_violated:
